@@ -81,11 +81,28 @@ CHECKS = {
                       'distinct) and the final database must contain exactly the committed rows and edges.',
                 note='trusted: TLC, the SQLite rules stated in RedoDb (an assumption exercised only on the paths redo uses), hook '
                      'placement'),
+    'C13': dict(engine='RedoPaths', design='DESIGN.md section 4 C13',
+                technique='TLA+ (TLC) evaluation of the candidate/argument rule RedoPaths.Candidates on every target of the family with '
+                          'its order laws + conformance: possible_do_files in process, redo-whichdo and real builds echoing cwd/$1/$2/$3, '
+                          'and add/remove-candidate histories, all compared with the TLC table',
+                level='TLC enumerates every target of the family, checks the order and argument laws on the specification and exports '
+                      'the expected candidate list with script directory, $1 and $2; the real enumeration is compared in process for '
+                      'every target, and for a sample covering every structural class the binaries are run on a materialised project '
+                      '(redo-whichdo, a real build, then adding and removing a higher-priority script).',
+                note='trusted: TLC; bounded name and depth alphabets; spaces/unicode only as far as they behave like the letter a'),
+    'C15': dict(engine='RedoPaths', design='DESIGN.md section 4 C15',
+                technique='TLA+ (TLC): byte-level transcription of normpath checked against an independent denotation (idempotent, '
+                          'meaning-preserving, canonical) and relpath re-joining for every string/pair up to a bound + conformance of the '
+                          'real functions on every enumerated input + exhaustive spelling pairs on real command lines',
+                level='TLC checks the laws of lexical cleaning and of relative-path composition on the specification for every string '
+                      'over a 4-symbol alphabet up to length 7 (9 thorough) and every pair of absolute strings up to length 4 (5); the '
+                      'real normpath/relpath must return exactly the TLC-computed value on every one of these inputs; every pair of '
+                      'spellings of one file from three working directories is run through redo, redo -j2 and redo-ifchange.',
+                note='trusted: TLC; the symlink-free tree of the reference (symlinked directories only through the real command lines); '
+                     'project-base discovery pinned by a .redo directory in the scratch project'),
 }
 
 PENDING = {
-    'C13': 'check under construction (RedoPaths transcription); not claimed yet',
-    'C15': 'check under construction (RedoPaths transcription, aliasing); not claimed yet',
     'C18': 'check under construction (RedoLog/RedoMeta); not claimed yet',
 }
 
@@ -108,6 +125,11 @@ def main():
              'serves_properties': sorted(k for k, c in CHECKS.items() if c.get('engine') == 'RedoJobs'),
              'kind_free_text': 'TLA+ specification of the jobserver token protocol and the scheduler loop at poll-cycle '
                                'granularity; TLC; TraceJobs.tla validates recorded token events of the real binaries'},
+            {'name': 'RedoPaths', 'path': 'spec/RedoPaths.tla',
+             'serves_properties': sorted(k for k, c in CHECKS.items() if c.get('engine') == 'RedoPaths'),
+             'kind_free_text': 'TLA+ transcription of normpath / relpath / .do candidate enumeration next to an independent '
+                               'denotation; TLC evaluates it on every input up to a bound and exports tables that lib/funcheck.py '
+                               'compares with the real functions (vfun helper) and binaries'},
             {'name': 'RedoDb', 'path': 'spec/RedoDb.tla',
              'serves_properties': sorted(k for k, c in CHECKS.items() if c.get('engine') == 'RedoDb'),
              'kind_free_text': 'TLA+ specification of the SQLite usage of the commands (deferred/immediate transactions, '
